@@ -207,7 +207,19 @@ fn run_iter_k<const K: usize>(sc: &Value, id: usize, out: Out) {
 }
 
 fn metrics_k<const K: usize>(sc: &Value, id: usize, out: Out) {
-    let t: Tree<i64, K> = build(sc["ops"].as_array().unwrap());
+    // every metric is also computed once before the last build operation on the same object (result discarded): a value memoised
+    // there must not survive the operation
+    let ops = sc["ops"].as_array().unwrap();
+    let t: Tree<i64, K> = {
+        let n = ops.len();
+        let mut t: Tree<i64, K> = build(&ops[..n.saturating_sub(1)]);
+        if t.len() > 0 {
+            let _ = guarded(|| (t.depth(), t.depth_stats(), t.num_terminals(), t.len(), t.num_nodes(t.get_root_idx()),
+                                t.node_indices().count(), t.terminal_indices().count(), t.dfs_iter().count()));
+        }
+        if n > 0 { apply_op(&mut t, &ops[n - 1]); }
+        t
+    };
     let idxs: Vec<usize> = t.node_indices().collect();
     let stats = guarded(|| t.depth_stats());
     let paths: Vec<Value> = idxs
